@@ -568,11 +568,6 @@ theorem cen3_move (M : Motion K) (hM : M.R.IsRot) (es : List (Edge3 K)) (h : es 
   simp only [List.map_map, Function.comp_def, wtet_move M hM]
   rw [vsum_map_rot' M (wtet (tcc3 es)) es, ← rot_smul, act_add_rot]
 
-theorem negTet_move (M : Motion K) (hM : M.R.IsRot) (es : List (Edge3 K)) (h : es ≠ []) :
-    negTet (es.map (Edge3.move M)) = negTet es := by
-  simp only [negTet, tcc3_move M es h, List.any_map, Function.comp_def, tetBad, tetVol_move M hM]
-  rfl
-
 theorem loopEdges_ne_nil (ps : List (V3 K)) (h : ps ≠ []) : loopEdges ps ≠ [] := by
   cases ps with
   | nil => exact absurd rfl h
@@ -617,15 +612,26 @@ theorem geom3_move (sq : K → K) (M : Motion K) (hM : M.R.IsRot) (g : Grid3 K)
   · exact List.map_congr_left (fun c hm => cellVol3_move sq M hM c (hC c hm).1 (hC c hm).2)
   · exact List.map_congr_left (fun c hm => cellCen3_move sq M hM c (hC c hm).1 (hC c hm).2)
 
+theorem cellTetVols_move (sq : K → K) (M : Motion K) (hM : M.R.IsRot) (c : Cell3 K) (hc : c ≠ [])
+    (hf : ∀ f ∈ c, f.2 ≠ [] ∧ faceArea3 sq f.2 ≠ 0) : cellTetVols sq (Cell3.move M c) = cellTetVols sq c := by
+  have hne := cellEdges_ne_nil sq c hc (fun f hm => (hf f hm).1)
+  simp only [cellTetVols, cellEdges_move sq M hM c hf, tcc3_move M _ hne, List.map_map, Function.comp_def,
+    tetVol_move M hM]
+
+theorem allTetVols_move (sq : K → K) (M : Motion K) (hM : M.R.IsRot) (cells : List (Cell3 K))
+    (hC : ∀ c ∈ cells, c ≠ [] ∧ ∀ f ∈ c, f.2 ≠ [] ∧ faceArea3 sq f.2 ≠ 0) :
+    allTetVols sq (cells.map (Cell3.move M)) = allTetVols sq cells := by
+  induction cells with
+  | nil => rfl
+  | cons c l ih =>
+    have h1 := hC c List.mem_cons_self
+    simp only [List.map_cons, allTetVols, cellTetVols_move sq M hM c h1.1 h1.2,
+      ih (fun b hb => hC b (List.mem_cons_of_mem _ hb))]
+
 theorem geom3Err_move (sq : K → K) (M : Motion K) (hM : M.R.IsRot) (g : Grid3 K)
     (hC : ∀ c ∈ g.cells, c ≠ [] ∧ ∀ f ∈ c, f.2 ≠ [] ∧ faceArea3 sq f.2 ≠ 0) :
     geom3Err sq (g.move M) = geom3Err sq g := by
-  simp only [geom3Err, Grid3.move, List.any_map, Function.comp_def]
-  apply any_congr_mem
-  intro c hm
-  rw [cellEdges_move sq M hM c (hC c hm).2]
-  exact negTet_move M hM _ (cellEdges_ne_nil sq c (hC c hm).1 (fun f hf => ((hC c hm).2 f hf).1))
-
+  simp only [geom3Err, Grid3.move, allTetVols_move sq M hM g.cells hC]
 
 /-! ### rotation_matrix / project_plane_matrix: the Rodrigues matrix -/
 
